@@ -92,7 +92,10 @@ def case_strategy(draw):
             variations.append((None, i, draw(gen.value_for(d[1][i][0], 1, types))))
     ignore_mode = draw(st.sampled_from(["none", "varied", "other", "meta", "ctx-varied", "ctx-nested", "ctx-exception"]))
     return {"spec": spec, "variations": variations, "ignore": ignore_mode,
-            "other_name": draw(gen.type_name())}
+            "other_name": draw(gen.type_name()),
+            # long-running processes evict record classes from the 4096-entry cache: an equal record may be an
+            # instance of a re-generated class
+            "evict": draw(st.booleans())}
 
 
 def vary(spec, var):
@@ -143,6 +146,9 @@ def check(case, ctx):
 
     spec = case["spec"]
     b1 = impl(gen.build_any_record, spec)
+    if case.get("evict"):
+        base._generate_record_class.cache_clear()
+        ctx.cls("copy-built-after-class-cache-eviction")
     b2 = impl(gen.build_any_record, spec)
     if not b1.ok or not b2.ok:
         ctx.cls("discarded:constructor-raised")
